@@ -3,6 +3,9 @@ from .common import *
 from .rows_mp11 import ENUMS, DROP2
 RS = 'backmp11/detail/favor_runtime_speed.hpp'
 def gm(_): return [X.T('g_m')]
+# compile-time facts of the enclosing dispatch_table a dispatch function may branch on: symbolic constants, NOT related to the content of the
+# cell table (a machine without rows of its own for the event still has forwarding cells for its submachines)
+TYPE_FACTS = [dict(name='TVAL-' + n, pat=n + ' :: value', rep='g_' + n, min=0, max=4) for n in ('has_transitions', 'has_internal_transitions', 'has_forward_transitions')]
 UNITS = []
 UNITS.append(Unit('backmp11.dispatch_impl.flat_fold.dispatch', ['C13', 'C06', 'C07', 'C18'], 'backmp11',
     Part(RS, ['class dispatch_impl < dispatch_strategy :: flat_fold , NotExplicit >'], 'dispatch ( StateMachine & sm , uint8_t region_id , const Event & event )'),
@@ -13,7 +16,7 @@ UNITS.append(Unit('backmp11.dispatch_impl.flat_fold.dispatch', ['C13', 'C06', 'C
         rewrites=[dict(name='auto-id', pat='const auto state_id =', rep='const int state_id =', min=1, max=1),
                   dict(name='TVAL-source-id', pat='auto source_state_id = StateMachine :: get_state_id ( SourceState ) ;', rep='const int source_state_id = src_id_of ( sm , region_id , Transition ) ;', min=1, max=1),
                   dict(name='TVAL-kleene', pat='is_kleene_event ( TransitionEvent )', rep='is_kleene_event ( Transition )', min=1, max=1),
-                  dict(name='SCOPE-base', pat='base :: convert_event_and_execute ( Transition ,', rep='convert_event_and_execute ( Transition ,', min=1, max=1)]),
+                  dict(name='SCOPE-base', pat='base :: convert_event_and_execute ( Transition ,', rep='convert_event_and_execute ( Transition ,', min=1, max=1)] + TYPE_FACTS),
     loops={0: '__CPROVER_assigns(transition, result, g_calls, g_ret)\n'
               '__CPROVER_loop_invariant(0 <= transition && transition <= g_m && g_calls == ((0 <= g_wit && g_wit < transition) ? 1 : 0))\n'
               '__CPROVER_loop_invariant((int)result == (g_calls ? g_ret : HANDLED_FALSE))\n__CPROVER_decreases(g_m - transition)'},
@@ -25,5 +28,5 @@ UNITS.append(Unit('backmp11.dispatch_impl.function_pointer_array.dispatch', ['C1
         dict(name='auto-id', pat='const auto state_id =', rep='const int state_id =', min=1, max=1),
         dict(name='table-alias', pat='auto & cells = m_cells ;', rep='', min=1, max=1),
         dict(name='table-read', pat='const cell_t cell = cells [ state_id ] ;', rep='const cell_t cell = cells_at ( sm , region_id , state_id ) ;', min=1, max=1),
-        dict(name='fnptr-call', pat='return cell ( sm ,', rep='return cell_call ( cell , sm ,', min=1, max=1)]),
+        dict(name='fnptr-call', pat='return cell ( sm ,', rep='return cell_call ( cell , sm ,', min=1, max=1)] + TYPE_FACTS),
     replay=['sel']))
